@@ -1,6 +1,7 @@
 (* C06 -- Each link is validated as if it were alone.  Property theorems only. *)
 From Coq Require Import List NArith.
 From FP Require Import Model.Base Model.Rdh Model.Scanner Model.CdpRunning Model.Link Proofs.C06_proofs.
+From FP Require Gen.Facts.
 Import ListNotations.
 Open Scope N_scope.
 
@@ -30,6 +31,15 @@ Theorem C06_extraction : forall c ps id, sel c id ps <> [] ->
   run_dispatch c (sel c id ps) = [(id, run_validator c (sel c id ps))].
 Proof. exact c06_extraction. Qed.
 
+(* the model's dispatch id (disp_id: FEE id exactly under `check all its-stave`, link id otherwise) is what the source decides by: the
+   condition that selects the key mentions the check target only -- no filter, no other option (fact re-read from
+   ValidatorDispatcher::new on every run) *)
+Theorem C06_dispatch_key_source_shape : Gen.Facts.dispatch_key_from_check_target_only = true.
+Proof. reflexivity. Qed.
+Theorem C06_dispatch_key : forall c p,
+  disp_id c p = match v_running c, v_target c with true, T_stave => r_fee_id (c_rdh p) | _, _ => r_link_id (c_rdh p) end.
+Proof. reflexivity. Qed.
+
 (* non-vacuity: two links interleaved, the second one corrupted (priority bit set) *)
 Definition c06_rdh (link prio : N) : rdh :=
   decode_rdh ([7;64;42;80;prio;32;0;0; 64;0;64;0;link;0;24;0] ++ repeat 0 8 ++ [2;0;0;0;0;0;0;0; 3;106;0;0;0;0;0;0] ++ repeat 0 24).
@@ -43,6 +53,8 @@ Example C06_nonvacuous :
   run_validator c06_cfg (sel c06_cfg 0 [a; b; a]) = Ok [].
 Proof. cbn zeta. split; [vm_compute; reflexivity|]. split; [eexists; vm_compute; reflexivity | vm_compute; reflexivity]. Qed.
 
+Print Assumptions C06_dispatch_key_source_shape.
+Print Assumptions C06_dispatch_key.
 Print Assumptions C06_isolated.
 Print Assumptions C06_alone.
 Print Assumptions C06_independent.
